@@ -352,6 +352,17 @@ func checkC09(a *checkArgs, r *Result) error {
 		}(j)
 	}
 	wg.Wait()
+	// the Lean model of Writer2 on a failing sink (Model/Writer2F.lean) against the real writer
+	dp, err := newDriverPool(a.driver, 16)
+	if err != nil {
+		return err
+	}
+	nfc := 40
+	if a.tier == "thorough" {
+		nfc = 120
+	}
+	w2fTie(r, dp, rand.New(rand.NewSource(a.seed+77)), nfc)
+	dp.Close()
 	// reader side
 	streams := libraryStreams(rng, nbase*2, 900)
 	streams = append(streams, corpusStreams(700)...)
